@@ -1,3 +1,6 @@
 import PanqecVerif.Model.Bits
 import PanqecVerif.Model.Code
 import PanqecVerif.Model.Analysis
+import PanqecVerif.Proofs.Analysis
+import PanqecVerif.Proofs.AnalysisRates
+import PanqecVerif.Properties.C15
